@@ -22,17 +22,17 @@ func CalleeName(c *ssa.CallCommon) string {
 		return ""
 	}
 	if c.IsInvoke() {
-		return c.Method.FullName()
+		return canonFullName(c.Method)
 	}
 	switch v := c.Value.(type) {
 	case *ssa.Function:
 		if v.Object() != nil {
 			if f, ok := v.Object().(*types.Func); ok {
-				return f.FullName()
+				return canonFullName(f)
 			}
 		}
 		if o := v.Origin(); o != nil && o.Object() != nil {
-			return o.Object().(*types.Func).FullName()
+			return canonFullName(o.Object().(*types.Func))
 		}
 		return "closure:" + FuncName(v)
 	case *ssa.MakeClosure:
@@ -88,13 +88,34 @@ func StaticFunc(c *ssa.CallCommon) *ssa.Function {
 	return nil
 }
 
-// EachInstr visits every instruction of fn.
+// EachInstr visits every instruction of fn and, spliced in, of the new
+// helper functions it calls synchronously (see helpers.go); each helper body
+// is visited once.
 func EachInstr(fn *ssa.Function, f func(ssa.Instruction)) {
-	for _, b := range fn.Blocks {
-		for _, i := range b.Instrs {
-			f(i)
+	var seen map[*ssa.Function]bool
+	var rec func(g *ssa.Function)
+	rec = func(g *ssa.Function) {
+		for _, b := range g.Blocks {
+			for _, i := range b.Instrs {
+				if g != fn {
+					if _, isRet := i.(*ssa.Return); isRet {
+						continue // the return of a spliced helper is not a return of fn
+					}
+				}
+				f(i)
+				if h := syncHelperCallee(i); h != nil {
+					if seen == nil {
+						seen = map[*ssa.Function]bool{fn: true}
+					}
+					if !seen[h] {
+						seen[h] = true
+						rec(h)
+					}
+				}
+			}
 		}
 	}
+	rec(fn)
 }
 
 // Calls returns the call/go/defer instructions of fn whose callee has one of the names.
@@ -115,15 +136,88 @@ func Calls(fn *ssa.Function, names ...string) []ssa.Instruction {
 func Closures(fn *ssa.Function) []*ssa.Function {
 	var out []*ssa.Function
 	var rec func(f *ssa.Function)
+	seen := map[*ssa.Function]bool{}
 	rec = func(f *ssa.Function) {
 		for _, a := range f.AnonFuncs {
 			out = append(out, a)
 			rec(a)
 		}
+		for _, w := range boundWrappersIn(f) {
+			if !seen[w] {
+				seen[w] = true
+				out = append(out, w)
+				rec(w)
+			}
+		}
+		for _, m := range literalMethodsOf(f) {
+			if !seen[m] && helperOf(m) == nil {
+				seen[m] = true
+				out = append(out, m)
+				rec(m)
+			}
+		}
+		// new helpers: a go/defer'd helper is a goroutine/deferred body like a
+		// closure; a synchronously called helper contributes its own closures
+		EachInstrRaw(f, func(i ssa.Instruction) {
+			if h := asyncHelperCallee(i); h != nil && !seen[h] {
+				seen[h] = true
+				out = append(out, h)
+				rec(h)
+			}
+			if h := syncHelperCallee(i); h != nil && !seen[h] {
+				seen[h] = true
+				rec(h)
+			}
+		})
 	}
 	if fn != nil {
+		seen[fn] = true
 		rec(fn)
 	}
+	return out
+}
+
+// DirectClosures: the function literals written directly in fn, plus the new
+// helpers it starts with go/defer (the named form of a goroutine/deferred
+// literal) and the literals of helpers spliced into it.
+func DirectClosures(fn *ssa.Function) []*ssa.Function {
+	if fn == nil {
+		return nil
+	}
+	seen := map[*ssa.Function]bool{}
+	var out []*ssa.Function
+	var rec func(g *ssa.Function, depth int)
+	rec = func(g *ssa.Function, depth int) {
+		for _, a := range g.AnonFuncs {
+			if !seen[a] {
+				seen[a] = true
+				out = append(out, a)
+			}
+		}
+		for _, w := range boundWrappersIn(g) {
+			if !seen[w] {
+				seen[w] = true
+				out = append(out, w)
+			}
+		}
+		for _, m := range literalMethodsOf(g) {
+			if !seen[m] && helperOf(m) == nil {
+				seen[m] = true
+				out = append(out, m)
+			}
+		}
+		EachInstrRaw(g, func(i ssa.Instruction) {
+			if h := asyncHelperCallee(i); h != nil && !seen[h] {
+				seen[h] = true
+				out = append(out, h)
+			}
+			if h := syncHelperCallee(i); h != nil && !seen[h] && depth < 3 {
+				seen[h] = true
+				rec(h, depth+1)
+			}
+		})
+	}
+	rec(fn, 0)
 	return out
 }
 
@@ -148,14 +242,67 @@ func instrIndex(i ssa.Instruction) int {
 
 // Dominates: a executes before b on every path from entry to b.
 func Dominates(a, b ssa.Instruction) bool {
-	if a.Block() == b.Block() {
-		return instrIndex(a) < instrIndex(b)
+	return dominatesD(a, b, 0)
+}
+
+func dominatesD(a, b ssa.Instruction, depth int) bool {
+	if a.Parent() == b.Parent() {
+		if a.Block() == b.Block() {
+			return instrIndex(a) < instrIndex(b)
+		}
+		return a.Block().Dominates(b.Block())
 	}
-	return a.Block().Dominates(b.Block())
+	if depth > 4 {
+		return false
+	}
+	// b inside a new helper: a must dominate every call site of that helper
+	if sites := liftSites(b); len(sites) > 0 {
+		ok := true
+		for _, s := range sites {
+			if s == a {
+				continue // a is the call itself: the helper body runs as part of it
+			}
+			if !dominatesD(a, s, depth+1) {
+				ok = false
+			}
+		}
+		if ok {
+			return true
+		}
+	}
+	// a inside a new helper that always executes it: its call sites must dominate b
+	if sites := liftSites(a); len(sites) > 0 && mustExecute(a) {
+		for _, s := range sites {
+			if _, isCall := s.(*ssa.Call); !isCall {
+				return false // go/defer: no ordering with the caller's later code
+			}
+			if !dominatesD(s, b, depth+1) {
+				return false
+			}
+		}
+		return true
+	}
+	return false
 }
 
 // InLoop reports whether block b lies on a CFG cycle.
 func InLoop(b *ssa.BasicBlock) bool {
+	if inLoopLocal(b) {
+		return true
+	}
+	if info := helperOf(b.Parent()); info != nil {
+		for _, s := range info.sites {
+			// a go/defer'd helper is its own activation (like a goroutine closure); only a
+			// synchronous call makes the helper body part of the caller's loop
+			if _, isCall := s.(*ssa.Call); isCall && InLoop(s.Block()) {
+				return true
+			}
+		}
+	}
+	return false
+}
+
+func inLoopLocal(b *ssa.BasicBlock) bool {
 	seen := map[*ssa.BasicBlock]bool{}
 	var q []*ssa.BasicBlock
 	q = append(q, b.Succs...)
@@ -198,9 +345,34 @@ type wnode struct {
 }
 
 func (w *Walk) search(b0 *ssa.BasicBlock, idx0 int) (ssa.Instruction, []*ssa.BasicBlock) {
+	hit, path, reachedReturn := w.searchIn(b0, idx0, 0)
+	if hit != nil {
+		return hit, path
+	}
+	// the walk started inside a new helper and can leave it: continue after its call sites
+	if reachedReturn {
+		if info := helperOf(b0.Parent()); info != nil {
+			for _, s := range info.sites {
+				if _, isCall := s.(*ssa.Call); !isCall {
+					continue
+				}
+				if h, pth := w.search(s.Block(), instrIndex(s)+1); h != nil {
+					return h, pth
+				}
+			}
+		}
+	}
+	return nil, nil
+}
+
+// searchIn is the intraprocedural search; calls of new helpers are entered
+// (their bodies are part of the caller). It also reports whether a return of
+// the function is reachable without passing an Avoid instruction.
+func (w *Walk) searchIn(b0 *ssa.BasicBlock, idx0 int, depth int) (ssa.Instruction, []*ssa.BasicBlock, bool) {
 	seen := map[*ssa.BasicBlock]bool{}
 	q := []*wnode{{b: b0}}
 	first := true
+	reachedReturn := false
 	for len(q) > 0 {
 		n := q[0]
 		q = q[1:]
@@ -215,21 +387,42 @@ func (w *Walk) search(b0 *ssa.BasicBlock, idx0 int) (ssa.Instruction, []*ssa.Bas
 			seen[n.b] = true
 		}
 		stopped := false
+		mkPath := func() []*ssa.BasicBlock {
+			var path []*ssa.BasicBlock
+			for x := n; x != nil; x = x.from {
+				path = append(path, x.b)
+			}
+			for i, j := 0, len(path)-1; i < j; i, j = i+1, j-1 {
+				path[i], path[j] = path[j], path[i]
+			}
+			return path
+		}
 		for k := start; k < len(n.b.Instrs); k++ {
 			in := n.b.Instrs[k]
+			if _, isRet := in.(*ssa.Return); isRet && helperOf(in.Parent()) != nil {
+				// the return of a spliced helper is not an exit of the function under analysis
+				reachedReturn = true
+				continue
+			}
 			if w.Target != nil && w.Target(in) {
-				var path []*ssa.BasicBlock
-				for x := n; x != nil; x = x.from {
-					path = append(path, x.b)
-				}
-				for i, j := 0, len(path)-1; i < j; i, j = i+1, j-1 {
-					path[i], path[j] = path[j], path[i]
-				}
-				return in, path
+				return in, mkPath(), false
 			}
 			if w.Avoid != nil && w.Avoid(in) {
 				stopped = true
 				break
+			}
+			if h := syncHelperCallee(in); h != nil && depth < 4 && len(h.Blocks) > 0 {
+				hit, _, ret := w.searchIn(h.Blocks[0], 0, depth+1)
+				if hit != nil {
+					return hit, mkPath(), false
+				}
+				if !ret {
+					stopped = true // every path through the helper passes an Avoid instruction
+					break
+				}
+			}
+			if _, isRet := in.(*ssa.Return); isRet {
+				reachedReturn = true
 			}
 		}
 		if stopped {
@@ -242,7 +435,7 @@ func (w *Walk) search(b0 *ssa.BasicBlock, idx0 int) (ssa.Instruction, []*ssa.Bas
 			q = append(q, &wnode{b: s, from: n})
 		}
 	}
-	return nil, nil
+	return nil, nil, reachedReturn
 }
 
 // PathString renders a block path with source lines.
@@ -276,8 +469,48 @@ func IsReturn(i ssa.Instruction) bool { _, ok := i.(*ssa.Return); return ok }
 
 // Peel strips representation-only conversions.
 func Peel(v ssa.Value) ssa.Value {
-	for {
+	for n := 0; n < 64; n++ {
 		switch x := v.(type) {
+		case *ssa.Parameter:
+			if a := helperParamArg(x); a != nil {
+				v = a
+				continue
+			}
+			return v
+		case *ssa.Call:
+			if rs := helperResults(x, 0); len(rs) == 1 && x.Call.Signature().Results().Len() == 1 {
+				v = rs[0]
+				continue
+			}
+			return v
+		case *ssa.Extract:
+			if call, ok := x.Tuple.(*ssa.Call); ok {
+				if rs := helperResults(call, x.Index); len(rs) == 1 {
+					v = rs[0]
+					continue
+				}
+			}
+			return v
+		case *ssa.UnOp:
+			// a field of a new (unpinned) struct type that is set once, in the literal that
+			// creates the value: closure variables that a refactoring turned into fields
+			if x.Op == token.MUL {
+				if fa, ok := x.X.(*ssa.FieldAddr); ok && IsNewType(fa.X.Type()) {
+					if val := newStructField(fa.X, fa.Field); val != nil {
+						v = val
+						continue
+					}
+				}
+			}
+			return v
+		case *ssa.Field:
+			if IsNewType(x.X.Type()) {
+				if val := newStructField(x.X, x.Field); val != nil {
+					v = val
+					continue
+				}
+			}
+			return v
 		case *ssa.ChangeType:
 			v = x.X
 		case *ssa.MakeInterface:
@@ -295,6 +528,7 @@ func Peel(v ssa.Value) ssa.Value {
 			return v
 		}
 	}
+	return v
 }
 
 // storesTo returns the values stored to the cell (Alloc) in fn and its closures.
@@ -336,6 +570,10 @@ func FreeVarBinding(fv *ssa.FreeVar) ssa.Value {
 	fn := fv.Parent()
 	par := fn.Parent()
 	if par == nil {
+		// the receiver captured by a bound-method wrapper
+		if sites := boundSites(fn); len(sites) == 1 && len(fn.FreeVars) == 1 && len(sites[0].Bindings) == 1 {
+			return sites[0].Bindings[0]
+		}
 		return nil
 	}
 	idx := -1
@@ -384,6 +622,31 @@ func Roots(v ssa.Value) []ssa.Value {
 				rec(e, depth+1)
 			}
 			return
+		case *ssa.Parameter:
+			if as := helperParamArgs(x); len(as) > 0 {
+				for _, a := range as {
+					rec(a, depth+1)
+				}
+				return
+			}
+		case *ssa.Call:
+			if x.Call.Signature().Results().Len() == 1 {
+				if rs := helperResults(x, 0); len(rs) > 0 {
+					for _, r := range rs {
+						rec(r, depth+1)
+					}
+					return
+				}
+			}
+		case *ssa.Extract:
+			if call, ok := x.Tuple.(*ssa.Call); ok {
+				if rs := helperResults(call, x.Index); len(rs) > 0 {
+					for _, r := range rs {
+						rec(r, depth+1)
+					}
+					return
+				}
+			}
 		case *ssa.UnOp:
 			if x.Op == token.MUL {
 				if cell := resolveCell(x.X); cell != nil && isLocalCell(cell) {
@@ -478,7 +741,7 @@ func fieldName(t types.Type, idx int) string {
 		t = p.Elem().Underlying()
 	}
 	if s, ok := t.(*types.Struct); ok && idx < s.NumFields() {
-		return s.Field(idx).Name()
+		return objName(s.Field(idx))
 	}
 	return fmt.Sprintf("#%d", idx)
 }
@@ -495,14 +758,29 @@ func FieldAddrOf(v ssa.Value) (base ssa.Value, field string, ok bool) {
 // parameter, free variable, global, call result or constant. Used for
 // messages and for comparing "the same place".
 func AccessPath(v ssa.Value) (string, bool) {
+	if v == nil {
+		return "<none>", false
+	}
 	v = Peel(v)
 	switch x := v.(type) {
 	case *ssa.Parameter:
+		if as := helperParamArgs(x); len(as) > 1 {
+			first, ok := AccessPath(as[0])
+			same := ok
+			for _, a := range as[1:] {
+				if pth, ok2 := AccessPath(a); !ok2 || pth != first {
+					same = false
+				}
+			}
+			if same {
+				return first, true
+			}
+		}
 		return "param:" + x.Name(), true
 	case *ssa.FreeVar:
 		return "captured:" + x.Name(), true
 	case *ssa.Global:
-		return "global:" + x.Name(), true
+		return "global:" + GlobalName(x), true
 	case *ssa.Const:
 		if x.Value == nil {
 			return "nil", true
@@ -705,6 +983,30 @@ func Eval(v ssa.Value, env Env) (constant.Value, bool) {
 			return nil, false
 		}
 		return x.Value, true
+	case *ssa.Phi:
+		return evalPhi(x, env)
+	case *ssa.Call:
+		// a new helper with one return value: evaluate what it returns (its
+		// parameters are looked up through env, then through the call's arguments)
+		if h, ok := x.Call.Value.(*ssa.Function); ok && IsNewHelper(h) && x.Call.Signature().Results().Len() == 1 {
+			if rs := helperResults(x, 0); len(rs) == 1 {
+				inner := func(u ssa.Value) (constant.Value, bool) {
+					if env != nil {
+						if c, ok := env(u); ok {
+							return c, true
+						}
+					}
+					for k, prm := range h.Params {
+						if u == ssa.Value(prm) && k < len(x.Call.Args) {
+							return Eval(x.Call.Args[k], env)
+						}
+					}
+					return nil, false
+				}
+				return Eval(rs[0], inner)
+			}
+		}
+		return nil, false
 	case *ssa.ChangeType:
 		return Eval(x.X, env)
 	case *ssa.Convert:
@@ -895,6 +1197,9 @@ func GuardingIfs(i ssa.Instruction) []struct {
 		}
 		b = id
 	}
+	if info := helperOf(i.Parent()); info != nil && len(info.sites) == 1 {
+		out = append(out, GuardingIfs(info.sites[0])...)
+	}
 	return out
 }
 
@@ -917,9 +1222,9 @@ func NamedType(t types.Type) string {
 	}
 	if n, ok := t.(*types.Named); ok {
 		if n.Obj().Pkg() == nil {
-			return n.Obj().Name()
+			return objName(n.Obj())
 		}
-		return n.Obj().Pkg().Path() + "." + n.Obj().Name()
+		return n.Obj().Pkg().Path() + "." + objName(n.Obj())
 	}
 	return t.String()
 }
@@ -955,6 +1260,10 @@ func SliceBack(v ssa.Value, visit func(ssa.Value) bool) {
 			for _, e := range x.Edges {
 				rec(e, d+1)
 			}
+		case *ssa.Parameter:
+			for _, a := range helperParamArgs(x) {
+				rec(a, d+1)
+			}
 		case *ssa.UnOp:
 			if x.Op == token.MUL {
 				if cell := resolveCell(x.X); cell != nil && isLocalCell(cell) {
@@ -969,6 +1278,14 @@ func SliceBack(v ssa.Value, visit func(ssa.Value) bool) {
 			rec(x.X, d+1)
 			rec(x.Y, d+1)
 		case *ssa.Call:
+			if rs := helperResults(x, 0); len(rs) > 0 {
+				for idx := 0; idx < x.Call.Signature().Results().Len(); idx++ {
+					for _, r := range helperResults(x, idx) {
+						rec(r, d+1)
+					}
+				}
+				return
+			}
 			for _, a := range Args(x.Common()) {
 				rec(a, d+1)
 			}
@@ -1151,7 +1468,7 @@ func cellValueAt(cell *ssa.Alloc, at ssa.Instruction, depth int) ssa.Value {
 // synthetic one of the recover block).
 func Returns(fn *ssa.Function) []*ssa.Return {
 	var out []*ssa.Return
-	EachInstr(fn, func(i ssa.Instruction) {
+	EachInstrRaw(fn, func(i ssa.Instruction) { // fn's own returns only (never those of spliced helpers)
 		if r, ok := i.(*ssa.Return); ok {
 			if fn.Recover != nil && i.Block() == fn.Recover {
 				return
@@ -1222,4 +1539,178 @@ func LoopEarlyExits(fn *ssa.Function) (exits []LoopEarlyExit, nloops int) {
 		}
 	}
 	return exits, nloops
+}
+
+// evalPhi evaluates a phi by following the decided branches from the
+// immediate dominator of its block (the short-circuit diamonds of && and ||,
+// if/else value selection): the incoming edge that is taken selects the value.
+func evalPhi(phi *ssa.Phi, env Env) (constant.Value, bool) {
+	b := phi.Block()
+	cur := b.Idom()
+	if cur == nil {
+		return nil, false
+	}
+	for steps := 0; steps < 64; steps++ {
+		if len(cur.Instrs) == 0 {
+			return nil, false
+		}
+		var next *ssa.BasicBlock
+		switch last := cur.Instrs[len(cur.Instrs)-1].(type) {
+		case *ssa.If:
+			c, ok := Eval(last.Cond, env)
+			if !ok || c.Kind() != constant.Bool {
+				return nil, false
+			}
+			if constant.BoolVal(c) {
+				next = cur.Succs[0]
+			} else {
+				next = cur.Succs[1]
+			}
+		case *ssa.Jump:
+			next = cur.Succs[0]
+		default:
+			return nil, false
+		}
+		if next == b {
+			for k, pr := range b.Preds {
+				if pr == cur && k < len(phi.Edges) {
+					return Eval(phi.Edges[k], env)
+				}
+			}
+			return nil, false
+		}
+		cur = next
+	}
+	return nil, false
+}
+
+// GuardCond is a condition known to hold (Truth) whenever an instruction executes.
+type GuardCond struct {
+	Cond  ssa.Value
+	Truth bool
+	If    *ssa.If
+}
+
+// GuardConds expands GuardingIfs: a guard `if a && b` that was materialised
+// into a value (assigned, returned by a new predicate helper) contributes
+// each conjunct; negations are folded into Truth.
+func GuardConds(i ssa.Instruction) []GuardCond {
+	var out []GuardCond
+	for _, g := range GuardingIfs(i) {
+		cond, trueSucc := BoolTest(g.If)
+		truth := g.Succ == trueSucc
+		out = append(out, GuardCond{cond, truth, g.If})
+		if truth {
+			for _, cj := range Conjuncts(cond, 0) {
+				if cj != cond {
+					out = append(out, GuardCond{cj, true, g.If})
+				}
+			}
+		}
+	}
+	return out
+}
+
+// Conjuncts returns values that are all true whenever v is true.
+func Conjuncts(v ssa.Value, depth int) []ssa.Value {
+	out := []ssa.Value{v}
+	if depth > 6 {
+		return out
+	}
+	switch x := v.(type) {
+	case *ssa.Call:
+		if h, ok := x.Call.Value.(*ssa.Function); ok && IsNewHelper(h) && x.Call.Signature().Results().Len() == 1 {
+			if rs := helperResults(x, 0); len(rs) == 1 {
+				out = append(out, Conjuncts(rs[0], depth+1)...)
+			}
+		}
+	case *ssa.Phi:
+		b := x.Block()
+		allShort := true
+		var tail []ssa.Value
+		var conds []ssa.Value
+		for k, e := range x.Edges {
+			pr := b.Preds[k]
+			if cst, ok := e.(*ssa.Const); ok && cst.Value != nil && cst.Value.Kind() == constant.Bool && !constant.BoolVal(cst.Value) {
+				// short-circuit exit: reached when the predecessor's condition was false
+				ifi := BlockIf(pr)
+				if ifi == nil || pr.Succs[1] != b {
+					allShort = false
+					continue
+				}
+				conds = append(conds, ifi.Cond)
+				continue
+			}
+			tail = append(tail, e)
+		}
+		if allShort && len(tail) == 1 && len(conds) > 0 {
+			for _, cnd := range conds {
+				out = append(out, Conjuncts(cnd, depth+1)...)
+			}
+			out = append(out, Conjuncts(tail[0], depth+1)...)
+		}
+	}
+	return out
+}
+
+// newStructField: base is (a pointer to / a copy of) a value of a new struct
+// type created by one literal; returns the value stored to field idx in that
+// literal when it is the only store to that field.
+func newStructField(base ssa.Value, idx int) ssa.Value {
+	var alloc *ssa.Alloc
+	for depth := 0; depth < 8 && alloc == nil; depth++ {
+		switch b := base.(type) {
+		case *ssa.Alloc:
+			alloc = b
+		case *ssa.UnOp:
+			if b.Op != token.MUL {
+				return nil
+			}
+			base = b.X
+		case *ssa.Parameter:
+			a := helperParamArg(b)
+			if a == nil {
+				// the receiver of a method of a single-literal type
+				if m := b.Parent(); len(m.Params) > 0 && m.Params[0] == b && m.Signature.Recv() != nil {
+					if al := receiverLiteral(m); al != nil {
+						alloc = al
+						continue
+					}
+				}
+				return nil
+			}
+			base = a
+		case *ssa.FreeVar:
+			a := FreeVarBinding(b)
+			if a == nil {
+				return nil
+			}
+			base = a
+		case *ssa.MakeInterface:
+			base = b.X
+		case *ssa.ChangeType:
+			base = b.X
+		default:
+			return nil
+		}
+	}
+	if alloc == nil {
+		return nil
+	}
+	var val ssa.Value
+	n := 0
+	for _, r := range Refs(alloc) {
+		if fa, ok := r.(*ssa.FieldAddr); ok && fa.Field == idx {
+			for _, u := range Refs(fa) {
+				if st, ok := u.(*ssa.Store); ok && st.Addr == ssa.Value(fa) {
+					val = st.Val
+					n++
+				}
+			}
+		}
+	}
+	if n != 1 {
+		return nil
+	}
+	return val
 }
